@@ -78,6 +78,52 @@ def job(j):
     return n, res
 
 
+POLL_CFGS = [dict(family='ET', tag=t, power=p, refused=rf, battery_mode=bm)
+             for t, p in (('ETU', 3000), ('ETU', 15000), ('ETT', 10000), ('25KET', 25000))
+             for rf in ((), ('meter_ext2',), ('meter_ext', 'meter_ext2'), ('battery', 'mppt'), ('battery2',))
+             for bm in (2, 0)] + \
+            [dict(family='DT', tag=t, power=5000, refused=rf, battery_mode=0) for t in ('DTU', 'DSN') for rf in ((), ('meter',))]
+
+
+def job_polls(j):
+    """Several polls of one configured object (capability fallbacks happen on the way): every call either fails with an
+    InverterError or returns a dict that has every id of sensors(); sensors() itself and a single read keep working."""
+    cfg, fname = j
+    r = make_rig(cfg, fill=FILLS[fname])
+    inv = r.inv
+    if r.call(inv.read_device_info)[0] != 'ok':
+        return 0, []
+    vio = []
+    n = 0
+    for i in range(4):
+        res = r.call(inv.read_runtime_data)
+        n += 1
+        ls = world.listed(inv)
+        if ls.error:
+            vio.append((f'sensors()-works/{cfg["family"]}', f'after poll {i + 1}: {ls.error}'))
+            break
+        if res[0] == 'exc':
+            if res[1] not in ('RequestRejectedException', 'RequestFailedException', 'MaxRetriesException'):
+                vio.append((f'poll-total/{cfg["family"]}/{res[1]}', f'poll {i + 1}: {res[1:]}'))
+            continue
+        if res[0] == 'ok':
+            missing = [s.id_ for s in ls if s.id_ not in res[1]]
+            if missing:
+                vio.append((f'poll-reports-every-listed-id/{cfg["family"]}', f'poll {i + 1}: {len(missing)} listed ids missing, e.g. {missing[:3]}'))
+        one = r.call(inv.read_sensor, ls[len(ls) // 2].id_)
+        if one[0] == 'exc' and one[1] not in ('ValueError', 'RequestRejectedException', 'RequestFailedException', 'MaxRetriesException', 'NotImplementedError'):
+            vio.append((f'single-read-total/{cfg["family"]}/{one[1]}', f'after poll {i + 1}: {one[1:]}'))
+    out = {}
+    for key, cause in vio:
+        out.setdefault(key, []).append(dict(key=key, clause=key.split('/')[0], replay=dict(kind='polls', cfg=cfg, fill=fname),
+                                            detail=dict(cause=cause, config=cfg)))
+    res = []
+    for key, lst in out.items():
+        lst[0]['n'] = len(lst)
+        res.append(lst[0])
+    return n, res
+
+
 def run_part(tier, seed, rep):
     jobs = [(c, f, None) for c in CFGS for f in FILLS] + [(c, f, None, pp) for c in CFGS for f in FILLS
                                                              for pp in ((True, 'no-battery', 'blocks-refused') if c['family'] == 'ET' else (True,))]
@@ -92,6 +138,9 @@ def run_part(tier, seed, rep):
                 for b in bad[seed % step::step]:
                     jobs.append((c, 'all-0000', (s.id_, b)))
     total = 0
+    for n, res in pmap(job_polls, [(c, f) for c in POLL_CFGS for f in ('ramp', 'all-ffff', 'all-0000')], chunksize=2):
+        total += n
+        rep.add_many(res)
     for n, res in pmap(job, jobs, chunksize=2):
         total += n
         rep.add_many(res)
@@ -99,6 +148,11 @@ def run_part(tier, seed, rep):
 
 
 def replay(r):
+    if r.get('kind') == 'polls':
+        cfg = r['cfg']
+        cfg['refused'] = tuple(cfg['refused'])
+        n, res = job_polls((cfg, r['fill']))
+        return dict(polls=n, violations=[(v['key'], v['detail']['cause']) for v in res])
     cfg = r['cfg']
     cfg['refused'] = tuple(cfg['refused'])
     if isinstance(cfg.get('firmware'), dict):
